@@ -484,7 +484,7 @@ func HarnessC38Single() {
 	state := verifrt.NondetRange("state", 0, 4)
 	w := zzvSetup(state)
 	defer w.cleanup()
-	rootNames := []string{"r", "d", "f", "l", "e"}
+	rootNames := []string{"r", "d", "f", "l", "e", "..", "../of", ".", "o/../../of"}
 	first := zzvEntryFromPools(w, 0, rootNames)
 	verifrt.Assume(first.typ != tar.TypeDir)
 	ents := []zzvEntry{first}
